@@ -297,7 +297,7 @@ func genC03(rt *rapid.T) c03Case {
 	}
 	if rapid.IntRange(0, 3).Draw(rt, "withprev") == 0 {
 		for i, n := 0, rapid.IntRange(1, 2).Draw(rt, "nprev"); i < n; i++ {
-			c.Prev = append(c.Prev, world.PrevSession{Hold: pick[uint16](rt, "prevhold", 0, 3, 90), End: pick(rt, "prevend", "fin", "cease", "cease+junk")})
+			c.Prev = append(c.Prev, world.PrevSession{Hold: pick[uint16](rt, "prevhold", 0, 3, 90), End: pick(rt, "prevend", "fin", "cease", "cease+junk"), In: rapid.IntRange(0, 2).Draw(rt, "previn") == 0})
 		}
 		c.SleepEstNs = 0 // (a sleeping OnEstablished would also hold up the earlier sessions' scripted ends)
 	}
